@@ -46,6 +46,10 @@ def gen(rng, tier, codes=None):
             if 0 <= cc < U64:
                 toks.append((codes["spec.hotp %s %s %d %d" % (t, hexs(k), cc, d)], "step%+d" % off))
         # fixed small / extreme candidates: a skipped neighbour slot left at a default value would accept one of these
+        # a window code with a digit appended / dropped (a comparison through fixed-width decimal text would truncate)
+        for cv, _w in [x for x in list(toks) if x[1] in ("step-1", "step+0", "step+1")]:
+            for tok in (cv * 10 + 7, cv // 10):
+                if -2 ** 31 <= tok < 2 ** 31 and tok != cv: toks.append((tok, "code-digits-shifted"))
         toks += [(0, "zero"), (1, "one"), (10 ** d - 1, "10^d-1"), (-1, "neg"), (10 ** d, "10^d"), (2 ** 31 - 1, "intmax"), (-2 ** 31, "intmin"), (toks[0][0] + 10 ** d if toks[0][0] + 10 ** d < 2 ** 31 else 5, "code+10^d")]
         cc = "c=%d" % c if c in (0, 1, 2) else ("c=max-%d" % (U64 - 1 - c) if U64 - 1 - c < 3 else "c.mid")
         for tok, what in toks:
